@@ -182,6 +182,82 @@ func configs3(r *ev.Run) {
 		}
 		r.Sample(cfgCase{"MarchingCubesFilter", sd.name, 3, "reference-aabb", sd.delta, fmt.Sprintf("tiles rejected by filters over all configs: %d", nTiles)})
 	}
+	// worker-count sweep: every GOMAXPROCS from 1 to 32 (thorough 48) on solids of 1-4 lattice cells in one
+	// direction and 4-13 in the others. Work that is divided among workers by integer division (rows per
+	// goroutine, slabs per goroutine) goes wrong only where the worker count does not divide the item count,
+	// or exceeds it; the fixed list {1,2,3,5,16} meets few such pairs.
+	maxProcs := 32
+	if r.Thorough() {
+		maxProcs = 48
+	}
+	var sweep []solid3
+	for thick := 1; thick <= 4; thick++ {
+		for rows := 4; rows <= 13; rows += 3 {
+			for ax := 0; ax < 3; ax++ {
+				ext := [3]float64{float64(rows) - 0.5, float64(rows+thick) - 0.5, float64(rows+1) - 0.5}
+				ext[ax] = float64(thick) + 0.5
+				mn := model3d.XYZ(0.2, -0.3, 0.1)
+				sweep = append(sweep, solid3{fmt.Sprintf("plate %d cells thick along axis %d, %d rows", thick, ax, rows),
+					model3d.NewRect(mn, mn.Add(model3d.XYZ(ext[0], ext[1], ext[2]).Scale(0.25))), 0.25})
+			}
+		}
+	}
+	sweep = append(sweep, solid3{"sphere", &model3d.Sphere{Center: model3d.XYZ(0.1, 0.2, -0.1), Radius: 1}, 0.3})
+	for _, sd := range sweep {
+		runtime.GOMAXPROCS(1)
+		refS := faces(model3d.MarchingCubes(sd.s, sd.delta))
+		refSearch := faces(model3d.MarchingCubesSearch(sd.s, sd.delta, 2))
+		if refS == faces(model3d.NewMesh()) {
+			ev.Fatal("harness: sweep solid %s meshes to nothing", sd.name)
+		}
+		for procs := 2; procs <= maxProcs; procs++ {
+			runtime.GOMAXPROCS(procs)
+			r.Eval(2)
+			if got := faces(model3d.MarchingCubes(sd.s, sd.delta)); got != refS {
+				r.Violation("config/MarchingCubes/gomaxprocs", "face set differs from the GOMAXPROCS=1 run", cfgCase{"MarchingCubes", sd.name, procs, "", sd.delta, "worker-count sweep"})
+				break
+			}
+			if got := faces(model3d.MarchingCubesSearch(sd.s, sd.delta, 2)); got != refSearch {
+				r.Violation("config/MarchingCubesSearch/gomaxprocs", "face set differs from the GOMAXPROCS=1 run", cfgCase{"MarchingCubesSearch", sd.name, procs, "", sd.delta, "worker-count sweep"})
+				break
+			}
+		}
+		r.NontrivialKey("sweep/" + sd.name)
+	}
+	// the same sweep for dual contouring's own worker count (MaxGos 1..24, default and minimal buffer) and for
+	// the filter pools of marching cubes under every GOMAXPROCS
+	for i, sd := range sweep {
+		if i%5 != 0 && i != len(sweep)-1 {
+			continue
+		}
+		runtime.GOMAXPROCS(1)
+		mk := func(maxGos, buf int) string {
+			return faces((&model3d.DualContouring{S: model3d.SolidSurfaceEstimator{Solid: sd.s}, Delta: sd.delta, MaxGos: maxGos, BufferSize: buf, Clip: true}).Mesh())
+		}
+		dcRef := mk(1, 0)
+		refS := faces(model3d.MarchingCubes(sd.s, sd.delta))
+		for gos := 2; gos <= 24; gos++ {
+			for _, buf := range []int{0, 1} {
+				r.Eval(1)
+				var got string
+				if p := ev.Try(func() { got = mk(gos, buf) }); p != "" {
+					r.Violation("config/DualContouring/panic", "panic: "+p, cfgCase{"DualContouring", sd.name, 1, "", sd.delta, fmt.Sprintf("MaxGos=%d BufferSize=%d, worker-count sweep", gos, buf)})
+				} else if got != dcRef {
+					r.Violation("config/DualContouring/buffer-or-parallelism", "face set differs from the MaxGos=1, full-buffer run", cfgCase{"DualContouring", sd.name, 1, "", sd.delta, fmt.Sprintf("MaxGos=%d BufferSize=%d, worker-count sweep", gos, buf)})
+				}
+			}
+		}
+		for procs := 2; procs <= maxProcs; procs++ {
+			runtime.GOMAXPROCS(procs)
+			r.Eval(1)
+			if got := faces(model3d.MarchingCubesFilter(sd.s, func(*model3d.Rect) bool { return true }, sd.delta)); got != refS {
+				r.Violation("config/MarchingCubesFilter/always-true", "face set differs from unfiltered marching cubes", cfgCase{"MarchingCubesFilter", sd.name, procs, "always-true", sd.delta, "worker-count sweep"})
+				break
+			}
+		}
+		r.NontrivialKey("sweep-dc/" + sd.name)
+	}
+	r.Set("gomaxprocs_sweep", fmt.Sprintf("1..%d on %d solids", maxProcs, len(sweep)))
 	// lattices large enough to cross the block-splitting thresholds of the filter pools (a queued block is
 	// split again by its worker only when the lattice has more than 64*4096 cells)
 	for _, sd := range []solid3{
@@ -338,6 +414,19 @@ func configs2(r *ev.Run) {
 				c := rc.MinVal.Mid(rc.MaxVal)
 				// the output lies within one lattice cell of the true boundary
 				return math.Abs(sh.sdf.SDF(c)) <= rc.MinVal.Dist(c)+delta*math.Sqrt2+slack
+			}
+		}
+		for procs := 2; procs <= 32; procs++ {
+			// worker-count sweep (see the 3D stage)
+			runtime.GOMAXPROCS(procs)
+			r.Eval(2)
+			if got := meshq.SegMultiset2(model2d.MarchingSquares(sh.s, delta).SegmentSlice()); got != refS {
+				r.Violation("config/MarchingSquares/gomaxprocs", "segment set differs from the GOMAXPROCS=1 run", cfgCase{"MarchingSquares", sh.name, procs, "", delta, "worker-count sweep"})
+				break
+			}
+			if got := meshq.SegMultiset2(model2d.MarchingSquaresFilter(sh.s, func(*model2d.Rect) bool { return true }, delta).SegmentSlice()); got != refS {
+				r.Violation("config/MarchingSquaresFilter/always-true", "segment set differs from unfiltered marching squares", cfgCase{"MarchingSquaresFilter", sh.name, procs, "always-true", delta, "worker-count sweep"})
+				break
 			}
 		}
 		for _, procs := range []int{1, 2, 3, 5, 16} {
